@@ -31,6 +31,31 @@ per build step is STRUCTURE:
 Histories whose graph is outside the fragment according to the MODEL's own frag_AB / topo_ordered verdict are counted
 and skipped.
 
+DRY RUNS (coq/Engine/HistDry.v dry_build, theorems in Properties_C19dry.v; used by props/c19.py): a build step with dry=1
+(`ninja -n`) maps to the model step `n<targets>`.  Compared: accept as above; dry-list: the SET of commands the engine
+reports as started under DryRunCommandRunner equals the model's dry_list (exact, also with an input-less phony: no
+pruning is involved); dry-executes: the scripted runner ran nothing; dry-order: the engine's listing respects the
+dependencies; exists / clean / log / times on the state AFTER the dry run (the model's state is the one before it: any
+disturbance of files or log by the engine shows up here); selfcheck: the model's listing is increasing in the statement
+order, and the commands of a real build of the same targets that follows at once are among the listed ones (both sides).
+
+FAILING COMMANDS (coq/Engine/HistFailDefs.v buildF_full, theorems in Properties_C05hist.v; used by props/c05.py): ONE build
+step per history carries faults (`faults=<out0>:<code>:<touch>`), run with -j1 -k1; touch=0 is FailUntouched, touch=1
+(the harness writes GARBAGE to every output before the command exits non-zero) is FailWrote; the harness has no
+"delete the outputs, then fail" behaviour, FailDeleted is in the protocol but not generated.  The model runs the
+statements in ITS statement order, ninja -j1 in the order of its own priority queue (critical path, then id): the two
+orders are both dependency orders but start different independent commands before the failing one.  The model's order
+is a free choice (any topological numbering, checked by topo_ordered), so the statements of a fault history are
+numbered for the model by the schedule ninja chose in the failing build: everything the commands started before the
+failing one need, then the failing statement, then the rest (Map.order).  Compared for the failing build: accept;
+failed: exit status non-zero because a command failed, in both or in neither; failed-edge: the same statement failed;
+run-set: the same commands were started; dependents: nothing that depends on the failed statement was started;
+not-recorded: the build-log entries of the failed statement's outputs are what they were before; exists / clean / log /
+times as for every build.  The builds that FOLLOW are compared like every build: there the listed finding
+id=failed-cmd-rewrote-output (garbage validated by an old log entry, "no work to do") has to show up identically on
+both sides, and does.  selfcheck uses the model's own taint_safe verdict (C01F_history: accepted, not failed,
+taint_safe => everything needed is clean).  Graphs of fault histories get no input-less phony statement.
+
 KNOWN DEVIATION of the model (found by this check; pinned by HistRun.ExAlwaysRestat): with an input-less phony statement
 (no_inputless_phony = false) a statement that reads it is dirty in every run; when that statement is `restat` and leaves
 its outputs alone, ninja's Plan::CleanNode prunes what depends on it, HistDefs.dirty_now (a fresh scan, in which the
@@ -39,8 +64,8 @@ the run-set rule is therefore relaxed to: engine's set is a subset of the model'
 an always-dirty statement (tainted_statements); log/times are not compared for those statements (their recorded times
 drift apart); accept / exists / clean stay exact.  With no_inputless_phony = true every rule is exact.
 
-  check(ctx_or_None, seed, n) -> (mismatches, stats)     mismatches: list of Mismatch (text, replay)
-  python3 tools/histmodel.py <seed> <n> [--keep DIR]      standalone
+  check(ctx_or_None, seed, n, dry=0.0, fault=False) -> (mismatches, stats)     mismatches: list of Mismatch (text, replay)
+  python3 tools/histmodel.py <seed> <n> [--dry P] [--fault] [--keep DIR]      standalone
 
 Model binary: $HISTMODEL_BIN if set, else hist_run next to vlib.build_model()'s model_run."""
 import os, sys, random, collections, copy, re
@@ -78,17 +103,23 @@ def run_model(lines, chunk=None, mode='hist'):
     return res
 
 # ------------------------------------------------------------------ generation (inside the fragment)
-def strip_graph(g):
+def strip_graph(g, rnd=None, no_inputless_phony=False):
     """what gen_graph adds regardless of the feature table and the model does not have"""
     for e in g.edges:
         e.pool = ''            # the console pool (scheduling only)
+        if no_inputless_phony and e.phony and not e.manifest_ins(): e.exp = [rnd.choice(sorted(g.sources))]
     return g
 
-def gen_history(rnd, sid, outside=False):
+GARBAGE_BASE = 10 ** 9        # model contents written by failing commands: GARBAGE_BASE + 1000 * k + node
+
+def gen_history(rnd, sid, outside=False, dry=0.0, fault=False):
+    """dry: probability that a build is preceded by a dry run of the same targets (and of a dry run on its own);
+    fault: exactly one build of the history carries faults (-j1 -k1)"""
     feat = dict(FEAT)
     if outside: feat['validations'] = 0.6
-    g = strip_graph(engine.gen_graph(rnd, rnd.randrange(2, 10), feat))
+    g = strip_graph(engine.gen_graph(rnd, rnd.randrange(2, 10), feat), rnd, no_inputless_phony=fault)
     h = ec.Hist(sid, g)
+    fstate = dict(todo=fault)
     allouts = [o for e in g.edges for o in e.outs]
     used_sources = sorted({i for e in g.edges for i in e.manifest_ins() + e.vals if i in g.sources})
     def do_build():
@@ -99,9 +130,31 @@ def gen_history(rnd, sid, outside=False):
             cand = allouts + (used_sources if rnd.random() < 0.3 else [])
             targets = rnd.sample(cand, rnd.randrange(1, min(3, len(cand)) + 1))
         j = rnd.choice([1, 1, 2, 3, 4, 8]); k = rnd.choice([1, 1, 1, 2, 0])
-        return h.build(rnd, targets, j=j, k=k, sched=ec.rand_sched(rnd, 2 * len(g.edges) + 2))
+        sched = ec.rand_sched(rnd, 2 * len(g.edges) + 2)
+        if dry and rnd.random() < dry:
+            h.build(rnd, targets, j=1, k=1, sched=sched, dry=1)                   # ninja -n ...
+            if rnd.random() < 0.25: return h.build(rnd, targets, j=1, k=1, sched=sched, dry=1)     # ... twice, nothing for real
+        ne = [e for e in g.edges if not e.phony]
+        if fstate['todo'] and ne and (last or rnd.random() < 0.35):
+            # the one failing invocation of this history: -j1 -k1, one or two statements with a fault
+            fstate['todo'] = False
+            fe = rnd.sample(ne, min(len(ne), rnd.choice([1, 1, 2])))
+            if rnd.random() < 0.6:
+                # make it likely that the first of them has to run: its output is removed, its command line or a source changes
+                e = fe[0]; r = rnd.random(); src = [x for x in e.exp + e.imp if x in g.sources]
+                if r < 0.35: o = rnd.choice(e.outs); h.add(ec.Step('rm', 'step rm %s' % hx(o), path=o)); h.tags.add('rm-output')
+                elif r < 0.65 or not src: e.ver += 1; h.rewrite_manifest()
+                else: sname = rnd.choice(src); h.edit(sname, '%s.%d' % (sname, rnd.randrange(1000000)))
+            fl = {e.out0: (rnd.choice([1, 1, 2, 3, 127, 255]), rnd.random() < 0.6) for e in fe}
+            st = h.build(rnd, targets, j=1, k=1, sched=sched, faults=fl)
+            h.tags.add('fault')
+            if rnd.random() < 0.85: st = h.build(rnd, targets, j=j, k=k, sched=sched)      # the NEXT invocation, plain
+            return st
+        return h.build(rnd, targets, j=j, k=k, sched=sched)
     def repeat(st):
+        if st.opts.get('dry') or st.opts.get('faults'): return
         h.add(ec.Step('build', st.line, g=st.g, sources=st.sources, targets=st.targets, opts=st.opts, repeat=True))
+    last = False
     st = do_build()
     if rnd.random() < 0.3: repeat(st)
     for _ in range(rnd.randrange(1, 7)):
@@ -130,44 +183,79 @@ def gen_history(rnd, sid, outside=False):
     # a removed source comes back more often than not, so that the final builds are accepted
     for sname in sorted(g.sources):
         if sname not in h.sources and rnd.random() < 0.7: h.edit(sname, '%s.%d' % (sname, rnd.randrange(1000000)))
+    last = True
     st = do_build(); repeat(st)
     return h
 
 # ------------------------------------------------------------------ mapping to the model line
+def step_kind(st):
+    """'plain' | 'dry' | 'fault' for a build step"""
+    if st.opts.get('dry'): return 'dry'
+    if st.opts.get('faults'): return 'fault'
+    return 'plain'
+
 class Map:
-    """node / statement numbering and the model line of one history"""
-    def __init__(s, h):
+    """node / statement numbering and the model line of one history.  Python side: a statement is its POSITION in g.edges;
+    model side: its number in `order` (the sequential order the model runs the statements in)."""
+    def __init__(s, h, builds=None):
         g = h.g0
         s.names = sorted(g.sources) + [o for e in g.edges for o in e.outs]
         for e in g.edges:
             for p in e.exp + e.imp + e.oo + e.vals:
                 if p not in s.names: s.names.append(p)
         s.id = {p: i for i, p in enumerate(s.names)}
-        s.eidx = {e.idx: k for k, e in enumerate(g.edges)}           # Edge.idx -> position = the model's statement number
-        s.by_out0 = {e.out0: k for k, e in enumerate(g.edges)}
+        s.by_out0 = {e.out0: k for k, e in enumerate(g.edges)}      # out0 -> position
         s.cid = {}                                                   # content string -> number
         s.known_hash = {}                                            # command text -> ninja's hash of it (learnt from the trace)
+        s.order = s.schedule(h, builds)                              # model number -> position
+        s.num = {pos: n for n, pos in enumerate(s.order)}            # position -> model number
         s.line = s.make_line(h)
+    def schedule(s, h, builds):
+        """the order the model takes the statements in.  Without a failing build: the manifest order.  With one: the order of
+        ninja's own -j1 schedule in that build: what the commands started before the failing one need (transitively, every
+        input kind), in manifest order, then the failing statement, then the rest in manifest order."""
+        g = h.g0; ident = list(range(len(g.edges)))
+        if not builds: return ident
+        for st, b in ec.pair(h, builds):
+            if step_kind(st) != 'fault': continue
+            failed = [o for o, c in b.finished if c != 0]
+            if not failed or failed[0] not in s.by_out0: return ident
+            f = s.by_out0[failed[0]]
+            prod = {o: k for k, e in enumerate(g.edges) for o in e.outs}
+            # only what was started BEFORE the command failed orders the model: a command started afterwards must show as a difference
+            before = []
+            for ev in b.events:
+                if ev[0] == 'finish' and ev[1] == failed[0]: break
+                if ev[0] == 'start': before.append(ev[1])
+            first = set(); todo = [s.by_out0[o] for o in before if o in s.by_out0]
+            while todo:
+                k = todo.pop()
+                if k in first: continue
+                first.add(k)
+                todo += [prod[i] for i in g.edges[k].manifest_ins() if i in prod]
+            first.discard(f)
+            return [k for k in ident if k in first] + [f] + [k for k in ident if k not in first and k != f]
+        return ident
     def content(s, c):
         if c not in s.cid: s.cid[c] = len(s.cid) + 1
         return s.cid[c]
     @staticmethod
-    def hash_of(k, e): return 0 if e.phony else 1 + k * 100000 + e.ver
+    def hash_of(pos, e): return 0 if e.phony else 1 + pos * 100000 + e.ver
     def make_line(s, h):
         g = h.g0; ID = s.id
         j = lambda l: '+'.join(str(ID[x]) for x in l) if l else '-'
         E = []
-        for k, e in enumerate(g.edges):
+        for pos in s.order:
+            e = g.edges[pos]
             # Edge::inputs_ as the parser leaves them: explicit ++ implicit ++ order-only (a phony statement's reference to
             # itself, the legacy CMake form, is erased there and is no part of the ground-truth lists)
             kind = 0 if e.phony else (2 if e.deps else (1 if e.depfile else 0))
             E.append('/'.join([j(e.exp + e.imp + e.oo), str(len(e.imp)), str(len(e.oo)), j(e.outs), j(e.vals),
                                '%d%d%d' % (e.phony, (not e.phony) and e.restat, (not e.phony) and e.generator), str(kind),
-                               str(s.hash_of(k, e))]))
+                               str(s.hash_of(pos, e))]))
         S = []
         for n, c in sorted(g.sources.items()): S.append('e%d:%d' % (ID[n], s.content(c)))      # the files of the scenario header
-        cur = dict(g.sources)
-        s.build_targets = []
+        cur = dict(g.sources); nf = 0
         for st in h.steps:
             if st.kind == 'edit':
                 c = st.line.split()[3]; c = engine.uh(c); cur[st.path] = c
@@ -177,12 +265,19 @@ class Map:
             elif st.kind == 'rm':
                 cur.pop(st.path, None); S.append('d%d' % ID[st.path])
             elif st.kind == 'manifest':
-                for k, (e0, e1) in enumerate(zip(s.prev_edges(h, st), st.g_after.edges)):
-                    if e0.ver != e1.ver: S.append('c%d:%d' % (k, s.hash_of(k, e1)))
+                for pos, (e0, e1) in enumerate(zip(s.prev_edges(h, st), st.g_after.edges)):
+                    if e0.ver != e1.ver: S.append('c%d:%d' % (s.num[pos], s.hash_of(pos, e1)))
             elif st.kind == 'build':
-                t = st.targets or ec.default_targets(st.g)
-                s.build_targets.append(t)
-                S.append('b' + '+'.join(str(ID[x]) for x in t))
+                t = '+'.join(str(ID[x]) for x in (st.targets or ec.default_targets(st.g)))
+                k = step_kind(st)
+                if k == 'dry': S.append('n' + t)
+                elif k == 'fault':
+                    fs = []
+                    for o0, (code, touch) in sorted(st.opts['faults'].items()):
+                        nf += 1
+                        fs.append('%d:%s' % (s.num[s.by_out0[o0]], 'w%d' % (GARBAGE_BASE + 1000 * nf) if touch else 'u'))
+                    S.append('f' + t + '@' + '/'.join(fs))
+                else: S.append('b' + t)
             else:
                 raise ValueError('step kind %s is outside the model' % st.kind)
         return 'N=%d E=%s L=- S=%s' % (len(s.names), ';'.join(E) or '-', ','.join(S) or '-')
@@ -195,6 +290,7 @@ class Map:
         return prev.edges
 
 def parse_model(out, m):
+    """statement numbers of the model are translated back to positions; `raw` keeps the model's own order"""
     w = out.split(' | ')
     r = dict(x.split('=') for x in w[0].split())
     r = {k: v == '1' for k, v in r.items()}
@@ -206,7 +302,11 @@ def parse_model(out, m):
             f = it.split(':')          # <x><q> : content : mtime : log hash : log mtime
             nodes[m.names[i]] = (it[0] == '1', it[1] == '1', f[1], None if f[2] == '-' else int(f[2]),
                                  None if f[3] == '-' else (int(f[3], 16), int(f[4])))
-        builds.append(dict(ok=kv['ok'] == '1', run=[] if kv['run'] == '-' else [int(x) for x in kv['run'].split('+')], nodes=nodes))
+        raw = kv.get('run', kv.get('list', '-'))
+        raw = [] if raw == '-' else [int(x) for x in raw.split('+')]
+        builds.append(dict(what=bl.split()[0], ok=kv['ok'] == '1', raw=raw, run=[m.order[x] for x in raw], nodes=nodes,
+                           ts=kv.get('ts', '1') == '1', failed=kv.get('failed') == '1',
+                           fe=None if kv.get('fe', '-') == '-' else m.order[int(kv['fe'])]))
     r['builds'] = builds
     return r
 
@@ -239,43 +339,98 @@ def tainted_statements(g):
         elif not e.phony and any(i in ad for i in nonoo): tn |= set(e.outs)
     return res
 
-def compare_build(h, m, st, b, mb, prev_ok_same, nip, cnt):
-    """-> list of (kind, text); counters updated in cnt"""
-    g = st.g; prod = g.producer(); bad = []
+def depends_on(g, f):
+    """positions of the statements that depend on an output of statement f (transitively, inputs of every kind)"""
+    outs = set(g.edges[f].outs); res = set(); changed = True
+    while changed:
+        changed = False
+        for k, e in enumerate(g.edges):
+            if k in res or k == f: continue
+            if any(i in outs for i in e.manifest_ins()): res.add(k); outs |= set(e.outs); changed = True
+    return res
+
+def compare_build(h, m, st, b, mb, prev_ok_same, nip, cnt, prev=None, flags=None):
+    """one build step (plain, dry run or failing build) -> list of (kind, text); counters updated in cnt.
+    prev = (Build, model build) of the previous build step; flags: per-history facts ('wfault': a command has failed after
+    rewriting its outputs)"""
+    g = st.g; prod = g.producer(); bad = []; flags = flags if flags is not None else {}
+    kind = step_kind(st)
+    want = {'plain': 'B', 'dry': 'N', 'fault': 'F'}[kind]
+    if mb['what'] != want: return [('mapping', 'engine step is %s, model step is %s' % (want, mb['what']))]
+    nm = lambda l: [g.edges[k].out0 for k in l]
     e_started = list(b.started)
-    e_ok = (b.exit == 0)
+    if kind == 'dry':
+        # DryRunCommandRunner: what Status::BuildEdgeStarted was told is the listing; the scripted runner must not have run
+        if b.started: bad.append(('dry-executes', 'the dry run executed commands %s' % b.started))
+        e_started = [engine.uh(ev[2]) for ev in b.events if ev[0] == 'st' and ev[1] == 'started']
+    e_failed = [o for o, c in b.finished if c != 0] if kind != 'dry' else []
+    e_ok = (b.exit == 0) or bool(e_failed)               # accepted by the scan (a failing build was accepted, then failed)
     refused = (b.exit not in (0, None)) and not e_started and 'missing and no known rule' in (b.err or '')
-    if not e_ok and not refused:
-        bad.append(('engine', 'the engine ended with exit=%s "%s" after starting %s: neither success nor a refusal' % (b.exit, (b.err or '')[:100], e_started)))
+    if b.exit != 0 and not refused and not (kind == 'fault' and e_failed):
+        bad.append(('engine', 'the engine ended with exit=%s "%s" after starting %s: neither success nor a refusal%s' % (
+            b.exit, (b.err or '')[:100], e_started, '' if kind != 'fault' else ' nor a failed command')))
     if e_ok != mb['ok']:
         bad.append(('accept', 'engine %s the build (exit=%s "%s"), model %s it' % ('accepted' if e_ok else 'refused', b.exit, (b.err or '')[:100], 'accepted' if mb['ok'] else 'refused')))
-    # run set
+    # run set / listing
     e_run = sorted(m.by_out0[o] for o in e_started if o in m.by_out0)
     if len(e_run) != len(e_started): bad.append(('engine', 'engine started unknown commands %s' % e_started))
     m_run = sorted(mb['run'])
     if len(set(e_run)) != len(e_run): bad.append(('run-set', 'engine started a command twice: %s' % e_started))
     if e_run != m_run:
-        nm = lambda l: [g.edges[k].out0 for k in l]
         extra = set(m_run) - set(e_run)
-        if not nip and set(e_run) <= set(m_run) and extra <= tainted_statements(g):
+        if kind == 'dry': bad.append(('dry-list', 'commands listed by -n: engine %s, model %s' % (nm(e_run), nm(m_run))))
+        elif not nip and set(e_run) <= set(m_run) and extra <= tainted_statements(g) and kind == 'plain':
             # KNOWN DEVIATION of HistDefs.dirty_now (see the module docstring): downstream of an always-dirty statement the model
             # re-runs what ninja prunes
             cnt['builds where the model re-ran statements ninja pruned below an always-dirty one (documented deviation)'] += 1
         else:
-            bad.append(('run-set', 'commands run: engine %s, model %s' % (nm(e_run), nm(m_run))))
+            bad.append(('run-set', 'commands %s: engine %s, model %s' % ('started' if kind == 'fault' else 'run', nm(e_run), nm(m_run))))
     # the model's order is the statement order; the engine's must respect the dependencies
-    fin = {}; sta = {}
-    for i, ev in enumerate(b.events):
-        if ev[0] == 'start': sta.setdefault(ev[1], i)
-        elif ev[0] == 'finish': fin.setdefault(ev[1], i)
-    for o in e_started:
-        e = prod.get(o)
-        if e is None: continue
-        for i in e.exp + e.imp + e.oo:
-            for p in through_phony(g, prod, i):
-                if p.out0 in sta and p is not e and not (p.out0 in fin and fin[p.out0] < sta[o]):
-                    bad.append(('order', '%s started before %s (producer of its input %s) finished' % (o, p.out0, i)))
-    if mb['run'] != sorted(mb['run']): bad.append(('selfcheck', 'model trace not in statement order: %s' % mb['run']))
+    if kind == 'dry':
+        seen = set()
+        for o in e_started:
+            e = prod.get(o)
+            for i in (e.exp + e.imp + e.oo if e else []):
+                for p in through_phony(g, prod, i):
+                    if p.out0 in e_started and p is not e and p.out0 not in seen:
+                        bad.append(('dry-order', 'the dry run lists %s before %s, the producer of its input %s' % (o, p.out0, i)))
+            seen.add(o)
+    else:
+        fin = {}; sta = {}
+        for i, ev in enumerate(b.events):
+            if ev[0] == 'start': sta.setdefault(ev[1], i)
+            elif ev[0] == 'finish' and ev[2] == 0: fin.setdefault(ev[1], i)
+        for o in e_started:
+            e = prod.get(o)
+            if e is None: continue
+            for i in e.exp + e.imp + e.oo:
+                for p in through_phony(g, prod, i):
+                    if p.out0 in sta and p is not e and not (p.out0 in fin and fin[p.out0] < sta[o]):
+                        bad.append(('order', '%s started before %s (producer of its input %s) finished successfully' % (o, p.out0, i)))
+    if mb['raw'] != sorted(mb['raw']): bad.append(('selfcheck', 'model trace/listing not in statement order: %s' % mb['raw']))
+    # failing build: exit status, which statement, containment, nothing recorded
+    if kind == 'fault':
+        if bool(e_failed) != mb['failed']:
+            bad.append(('failed', 'engine: %s (exit=%s); model: failed=%s' % ('command %s failed' % e_failed if e_failed else 'no command failed', b.exit, mb['failed'])))
+        if e_failed and (b.exit in (0, None)): bad.append(('failed', 'a command failed and the exit status is %s' % b.exit))
+        if len(e_failed) > 1: bad.append(('failed', 'with -k1 more than one command failed: %s' % e_failed))
+        ef = m.by_out0.get(e_failed[0]) if e_failed else None
+        if e_failed and mb['failed'] and ef != mb['fe']:
+            bad.append(('failed-edge', 'the command that failed: engine %s, model %s' % (e_failed[0], g.edges[mb['fe']].out0)))
+        if mb['failed'] and (not mb['run'] or mb['run'][-1] != mb['fe']): bad.append(('selfcheck', 'model: the failed statement is not the last one started (C05_exit_failed)'))
+        for side, f, run in (('engine', ef, e_run), ('model', mb['fe'] if mb['failed'] else None, m_run)):
+            if f is None: continue
+            dep = depends_on(g, f) & set(run)
+            if dep: bad.append(('dependents', '%s: %s depend on the failed %s and were started' % (side, nm(sorted(dep)), g.edges[f].out0)))
+            for o in g.edges[f].outs:
+                if side == 'engine' and b.log.get(o) != getattr(b, 'pre_log', {}).get(o):
+                    bad.append(('not-recorded', 'engine: the log entry of %s changed in the invocation in which its command failed' % o))
+                if side == 'model' and mb['nodes'][o][4] != (prev[1]['nodes'][o][4] if prev else None):
+                    bad.append(('not-recorded', 'model: the log entry of %s changed in the invocation in which its command failed' % o))
+        if e_failed:
+            cnt['failing builds: a command failed'] += 1
+            if st.opts['faults'][e_failed[0]][1]: flags['wfault'] = True; cnt['failing builds: the command rewrote its outputs first'] += 1
+        else: cnt['failing builds: no faulted command had to run'] += 1
     # per node
     try: exp = g.clean_contents(st.sources)
     except RecursionError: exp = None
@@ -312,32 +467,36 @@ def compare_build(h, m, st, b, mb, prev_ok_same, nip, cnt):
                 cnt['time relations compared'] += 1
                 if ev != mv:
                     w = 'recorded mtime of %s' % o if what == 'log' else 'mtime of %s' % o
-                    nm = {1: 'newer than', 0: 'equal to', -1: 'older than'}
-                    bad.append(('times', '%s is %s the mtime of %s in the engine, %s in the model' % (w, nm[ev], i, nm[mv])))
+                    nms = {1: 'newer than', 0: 'equal to', -1: 'older than'}
+                    bad.append(('times', '%s is %s the mtime of %s in the engine, %s in the model' % (w, nms[ev], i, nms[mv])))
     # the model against its own theorems
-    if mb['ok']:
+    if mb['ok'] and kind != 'dry' and not mb['failed']:
         targets = st.targets or ec.default_targets(g)
-        for n in sorted(g.closure(targets, with_vals=False)):
-            if n in mb['nodes'] and not mb['nodes'][n][1]:
-                bad.append(('selfcheck', 'model: %s is needed by the targets of an accepted build and is not clean (C01_history_hcmd)' % n))
-    if prev_ok_same and nip:
+        unclean = [n for n in sorted(g.closure(targets, with_vals=False)) if n in mb['nodes'] and not mb['nodes'][n][1]]
+        if unclean and mb['ts']:
+            bad.append(('selfcheck', 'model: %s needed by the targets of an accepted build from a taint_safe state: not clean (C01_history_hcmd / C01F_history)' % unclean))
+        if unclean and not mb['ts'] and b.exit == 0 and all(n not in b.files or exp is None or b.files[n][1] != exp.get(n) for n in unclean):
+            cnt['successful builds that kept what a failed command wrote (id=failed-cmd-rewrote-output, identical on both sides)'] += 1
+    if kind == 'dry': cnt['dry runs compared'] += 1; cnt['commands listed by dry runs (engine)'] += len(e_started)
+    if prev_ok_same and nip and not flags.get('wfault'):
         if mb['run'] or not mb['ok']: bad.append(('selfcheck', 'model: the build repeated after an accepted one ran %s ok=%s (C02_history_hcmd)' % (mb['run'], mb['ok'])))
-        if e_started or not e_ok: bad.append(('idle', 'engine: the build repeated after an accepted one started %s exit=%s' % (e_started, b.exit)))
+        if e_started or b.exit != 0: bad.append(('idle', 'engine: the build repeated after an accepted one started %s exit=%s' % (e_started, b.exit)))
     return bad
 
-def check(ctx, seed, n, keep=None):
+def check(ctx, seed, n, keep=None, dry=0.0, fault=False):
     """n random histories inside the fragment through the real engine and through the extracted model.
+    dry: probability of dry runs before builds; fault: every history has one failing invocation.
     Returns (list of Mismatch, stats dict)."""
     rnd = random.Random(seed * 1000003 + 4242)
     hists = []
     for i in range(n):
-        hists.append(gen_history(rnd, 'HIST_%d_%d' % (seed, i), outside=rnd.random() < OUTSIDE_RATE))
+        hists.append(gen_history(rnd, 'HIST_%d_%d' % (seed, i), outside=rnd.random() < OUTSIDE_RATE, dry=dry, fault=fault))
     return compare_hists(hists, keep)
 
 def compare_hists(hists, keep=None):
     """the given histories (enginecheck.Hist, steps inside the model) through both sides"""
-    maps = [Map(h) for h in hists]
     rc, tr, err, out = ec.run_hists(hists)
+    maps = [Map(h, tr.get(h.sid)) for h in hists]         # the engine's schedule of a failing build orders the model's statements
     mouts = run_model([m.line for m in maps])
     st_ = collections.Counter(); mism = []
     st_['histories'] = len(hists)
@@ -357,6 +516,10 @@ def compare_hists(hists, keep=None):
         replay = lambda: ec.replay_text(h) + '# hist-model-line ' + m.line + '\n# hist-model-output ' + mo + '\n'
         if not r['wf'] or not r['hok']:
             mism.append(Mismatch(h.sid, 'mapping', 'the model line is malformed (wf=%s hist_ok=%s)' % (r['wf'], r['hok']), replay())); continue
+        reordered = m.order != list(range(len(m.order)))
+        if reordered: st_['histories whose statements are numbered by ninja\'s schedule of the failing build'] += 1
+        if reordered and r['frag'] and not r['topo']:
+            mism.append(Mismatch(h.sid, 'order', 'ninja\'s schedule of the failing build is no dependency order: model order %s' % m.order, replay())); continue
         if not (r['frag'] and r['topo']):
             st_['outside the fragment (model verdict)'] += 1
             if not r['frag']: st_['outside: frag_AB false'] += 1
@@ -369,31 +532,41 @@ def compare_hists(hists, keep=None):
         prs = ec.pair(h, bs)
         if len(prs) != len(r['builds']) or len(prs) != sum(1 for s in h.steps if s.kind == 'build'):
             mism.append(Mismatch(h.sid, 'mapping', 'engine ran %d builds, model %d' % (len(prs), len(r['builds'])), replay())); continue
-        bad = []; prev = None
+        bad = []; prev = None; flags = {}; pending_dry = None
         for k, ((st, b), mb) in enumerate(zip(prs, r['builds'])):
+            kind = step_kind(st)
             st_['builds compared'] += 1
-            rep = bool(getattr(st, 'repeat', False)) and prev is not None and prev[0].exit == 0 and prev[1]['ok']
-            if rep and r['nip']: st_['repeated builds compared (idle in both)'] += 1
+            rep = bool(getattr(st, 'repeat', False)) and prev is not None and prev[0].exit == 0 and prev[1]['ok'] and prev[2] == 'plain' and kind == 'plain'
+            if rep and r['nip'] and not flags.get('wfault'): st_['repeated builds compared (idle in both)'] += 1
             if b.started: st_['builds that ran commands'] += 1
-            if b.exit != 0: st_['builds refused by both'] += (0 if mb['ok'] else 1)
-            if b.exit == 0 and not b.started: st_['builds with nothing to do'] += 1
+            if b.exit != 0 and not mb['ok']: st_['builds refused by both'] += 1
+            if b.exit == 0 and not b.started and kind == 'plain': st_['builds with nothing to do'] += 1
             st_['commands run (engine)'] += len(b.started)
             st_['node comparisons'] += len(m.names)
-            for kind, text in compare_build(h, m, st, b, mb, rep, r['nip'], st_):
-                bad.append((kind, 'build %d: %s' % (k, text)))
-            # a pruned statement: dirty at scan time, not run
-            prev = (b, mb)
+            for kd, text in compare_build(h, m, st, b, mb, rep, r['nip'], st_, prev, flags):
+                bad.append((kd, 'build %d: %s' % (k, text)))
+            # the commands of a real build that follows a dry run of the same targets at once are among the listed ones
+            # (C19_dry_superset; equality when nothing is pruned is C19_dry_difference_exact)
+            if pending_dry is not None and kind == 'plain' and pending_dry[0] == h.steps.index(st) - 1 and pending_dry[1] == st.targets and mb['ok'] and b.exit == 0:
+                st_['dry runs followed at once by the same build for real'] += 1
+                if not set(mb['run']) <= set(pending_dry[2]): bad.append(('selfcheck', 'build %d: model ran %s, its dry run listed %s (C19_dry_superset)' % (k, mb['run'], pending_dry[2])))
+                if not set(b.started) <= set(pending_dry[3]): bad.append(('dry-superset', 'build %d: engine ran %s, its dry run listed %s' % (k, b.started, pending_dry[3])))
+                if sorted(mb['run']) == sorted(pending_dry[2]): st_['... where the listing was exact'] += 1
+            pending_dry = None
+            if kind == 'dry' and mb['ok']:
+                pending_dry = (h.steps.index(st), st.targets, mb['run'], [engine.uh(ev[2]) for ev in b.events if ev[0] == 'st' and ev[1] == 'started'])
+            prev = (b, mb, kind)
         if any(st.kind == 'build' and any(e.restat for e in st.g.edges if not e.phony) for st in h.steps): st_['histories with a restat statement'] += 1
         for tg in sorted(h.tags): st_['histories with ' + tg] += 1
         if bad:
             st_['mismatching histories'] += 1
-            for kind in sorted({k for k, _ in bad}): st_['mismatch:' + kind] += 1
+            for kd in sorted({k for k, _ in bad}): st_['mismatch:' + kd] += 1
             mism.append(Mismatch(h.sid, bad[0][0], '; '.join(t for _, t in bad[:4]), replay()))
     st_.setdefault('mismatching histories', 0)
     st_.setdefault('outside the fragment (model verdict)', 0)
     kinds = collections.Counter()
     for h in hists:
-        for s in h.steps: kinds[s.kind] += 1
+        for s in h.steps: kinds[s.kind if s.kind != 'build' else {'plain': 'build', 'dry': 'build -n', 'fault': 'build with faults'}[step_kind(s)]] += 1
     stats = dict(st_); stats['steps'] = dict(kinds)
     if keep:
         os.makedirs(keep, exist_ok=True)
@@ -401,7 +574,7 @@ def compare_hists(hists, keep=None):
             with open(os.path.join(keep, 'hist-mismatch-%d.scn' % i), 'w') as f: f.write('# %s\n' % x + x.replay)
     return mism, stats
 
-# ------------------------------------------------------------------ integration with tools/check (props/c01.py, props/c02.py)
+# ------------------------------------------------------------------ integration with tools/check (props/c01.py, c02.py, c05.py, c19.py)
 HISTRUN_V = 'Engine/HistRun.v'
 _FORBIDDEN = re.compile(r'\b(Admitted|admit|Axiom|Axioms|Parameter|Parameters|Conjecture|Abort)\b|Unset\s+Guard|bypass_check|native_compute|type-in-type|Unset\s+Positivity|Unset\s+Universe')
 _STMT = re.compile(r'^\s*(?:Local\s+|Global\s+)?(Theorem|Lemma|Corollary|Example|Fact|Proposition|Remark)\s+(\w+)', re.M)
@@ -442,8 +615,9 @@ def finish_proof_check(ctx, handle):
     ctx.proof['theorems'] = ctx.proof.get('theorems', []) + names
     ctx.proof['print_assumptions'] = ctx.proof['print_assumptions'] + ['%s: %d theorems closed under the global context' % (HISTRUN_V, closed)]
 
-def hook(ctx, pid):
-    """called by props/c01.py and props/c02.py after the engine property proper"""
+def hook(ctx, pid, dry=0.0, fault=False, quick=400, thorough=5000, key='hist_model'):
+    """called by props/c01.py, c02.py (plain histories), c19.py (dry=..: dry runs interleaved), c05.py (fault=True: one
+    failing invocation per history) after the property's own runs"""
     if not ctx.model: return         # the model did not build: already reported as a broken obligation
     os.environ['HISTMODEL_BIN'] = os.path.join(os.path.dirname(ctx.model), 'hist_run')
     if ctx.replay:
@@ -456,45 +630,50 @@ def hook(ctx, pid):
         for x in mism: ctx.corr_broken.append('history model (HistDefs) differs from ninja in scenario %s: %s' % (x.sid, x.text[:600]))
         return
     handle = start_proof_check(ctx)
-    n = 400 if ctx.quick() else 5000
-    mism, stats = check(ctx, ctx.seed * 31 + int(pid[1:]), n)
+    n = quick if ctx.quick() else thorough
+    mism, stats = check(ctx, ctx.seed * 31 + int(pid[1:]), n, dry=dry, fault=fault)
     finish_proof_check(ctx, handle)
     for x in mism[:5]:
         ctx.corr_broken.append('history model (HistDefs) differs from ninja in scenario %s [%s]: %s' % (x.sid, x.kind, x.text[:600]))
         ctx.replay_file('hist-mismatch', x.replay)
     if len(mism) > 5: ctx.corr_broken.append('history model (HistDefs): %d more mismatching histories' % (len(mism) - 5))
     ctx.cov['hist_model_correspondence'] = stats
-    ctx.cov.setdefault('distribution', {})['hist_model'] = {k: stats.get(k, 0) for k in (
+    extra = [k for k in stats if k.startswith(('dry runs', 'failing builds', 'commands listed', 'successful builds that kept', '... where', 'histories whose statements'))]
+    ctx.cov.setdefault('distribution', {})[key] = {k: stats.get(k, 0) for k in extra + [
         'histories', 'inside the fragment', 'outside the fragment (model verdict)', 'inside, with an input-less phony (C02 comparison skipped)',
         'builds compared', 'builds that ran commands', 'builds refused by both', 'repeated builds compared (idle in both)',
-        'node comparisons', 'log entries compared', 'time relations compared', 'mismatching histories')}
+        'node comparisons', 'log entries compared', 'time relations compared', 'mismatching histories']}
     ctx.cov['traces_validated_against_model'] = ctx.cov.get('traces_validated_against_model', 0) + stats.get('builds compared', 0)
 
 def replay(path):
-    """re-run the histories of a replay file (enginecheck.replay_text format) through both sides"""
+    """re-run the histories of a replay file (enginecheck.replay_text format) through both sides and show them"""
     hists = ec.load_replay(path)
-    maps = [Map(h) for h in hists]
     rc, tr, err, out = ec.run_hists(hists)
+    maps = [Map(h, tr.get(h.sid)) for h in hists]
     mouts = run_model([m.line for m in maps])
     for h, m, mo in zip(hists, maps, mouts):
         r = parse_model(mo, m); prs = ec.pair(h, tr.get(h.sid, []))
         print(h.g0.manifest())
-        print('model line  :', m.line); print('model output:', mo)
-        prev = None
+        print('model order :', m.order); print('model line  :', m.line); print('model output:', mo)
+        prev = None; flags = {}
         for k, ((st, b), mb) in enumerate(zip(prs, r['builds'])):
-            rep = bool(getattr(st, 'repeat', False)) and prev is not None and prev[0].exit == 0 and prev[1]['ok']
-            print('build %d targets=%s engine: exit=%s err=%r started=%s | model: ok=%s run=%s' % (
-                k, st.targets, b.exit, b.err, b.started, mb['ok'], [h.g0.edges[x].out0 for x in mb['run']]))
-            for kind, text in compare_build(h, m, st, b, mb, rep, r['nip'], collections.Counter()): print('   MISMATCH [%s] %s' % (kind, text))
-            prev = (b, mb)
+            kind = step_kind(st)
+            rep = bool(getattr(st, 'repeat', False)) and prev is not None and prev[0].exit == 0 and prev[1]['ok'] and prev[2] == 'plain' and kind == 'plain'
+            listed = [engine.uh(ev[2]) for ev in b.events if ev[0] == 'st' and ev[1] == 'started']
+            print('build %d %s targets=%s faults=%s engine: exit=%s err=%r started=%s%s | model: ok=%s failed=%s ts=%s %s=%s' % (
+                k, kind, st.targets, st.opts.get('faults'), b.exit, b.err, b.started, ' listed=%s' % listed if kind == 'dry' else '', mb['ok'], mb['failed'], mb['ts'],
+                'list' if kind == 'dry' else 'run', [h.g0.edges[x].out0 for x in mb['run']]))
+            for kd, text in compare_build(h, m, st, b, mb, rep, r['nip'], collections.Counter(), prev, flags): print('   MISMATCH [%s] %s' % (kd, text))
+            prev = (b, mb, kind)
 
 if __name__ == '__main__':
     a = sys.argv[1:]
     if a and a[0] == '--replay': replay(a[1]); sys.exit(0)
     seed = int(a[0]) if a else 1; n = int(a[1]) if len(a) > 1 else 400
     keep = a[a.index('--keep') + 1] if '--keep' in a else None
+    dry = float(a[a.index('--dry') + 1]) if '--dry' in a else 0.0
     import time; t0 = time.time()
-    mism, stats = check(None, seed, n, keep=keep)
+    mism, stats = check(None, seed, n, keep=keep, dry=dry, fault='--fault' in a)
     for k in sorted(stats): print('%-60s %s' % (k, stats[k]))
     for x in mism[:10]:
         print('MISMATCH', x)
